@@ -119,6 +119,17 @@ func isLibrary(fn string) bool {
 // (grpc, net, database/sql) makes the verdict "not provable".
 func standstill(a, b string) (string, bool) { return standstillOf(a, b, "fix.Watchdog.func1") }
 
+// Standstill takes two goroutine dumps 5 s apart and applies the standstill
+// rule to the goroutines carrying marker in their stack.
+func Standstill(marker string) (string, bool) {
+	buf := make([]byte, 8<<20)
+	n := runtime.Stack(buf, true)
+	a := string(buf[:n])
+	time.Sleep(5 * time.Second)
+	n = runtime.Stack(buf, true)
+	return standstillOf(a, string(buf[:n]), marker)
+}
+
 // standstillOf: marker names the frame that identifies the goroutine(s)
 // running the action.
 func standstillOf(a, b, marker string) (string, bool) {
